@@ -112,7 +112,8 @@ func c17OnlyDrops(t *c17Ty, v, o jval) bool {
 	}
 	switch t.K {
 	case 'b':
-		if t.Kind != 'i' || v.K != '#' || o.K != '#' || !c17IsInt64Lit(o.Num) {
+		// only a literal in float syntax may be respelled
+		if t.Kind != 'i' || v.K != '#' || o.K != '#' || !c17IsInt64Lit(o.Num) || c17IntLit.MatchString(v.Num) {
 			return false
 		}
 		fv, err := strconv.ParseFloat(v.Num, 64)
